@@ -268,6 +268,7 @@ pub fn run(ctx: &Ctx) -> ! {
             samples.lock().unwrap().offer(|| json!({"kind": "compiled query", "query_text": cq.text, "ron_bytes": ron::ser::to_string(iq).map(|s| s.len()).unwrap_or(0)}));
         }
     };
+    cfg.stream_share = 1.0;
     let stats = if ctx.replay.is_none() { Some(corpus::drive(ctx, &uni0, &cfg, &per_query, &|_| {}, &|_, _| {})) } else { None };
     let _ = &uni;
 
